@@ -126,7 +126,8 @@ def run_tlc(
     cfg_path = os.path.join(d, f"{module}.cfg")
     with open(cfg_path, "w") as f:
         f.write(cfg_text)
-    cmd = ["java", "-XX:+UseParallelGC", f"-Xmx{heap}"]
+    # (TLC leaves an empty tlc-<n> directory in java.io.tmpdir per run: keep it inside the run's own scratch directory)
+    cmd = ["java", "-XX:+UseParallelGC", f"-Xmx{heap}", f"-Djava.io.tmpdir={d}"]
     cmd += list(jvm_opts or [])
     cmd += ["-cp", f"{JAR}:{DEPS}", "tlc2.TLC", "-noGenerateSpecTE",
             "-metadir", os.path.join(d, "states"), "-workers", str(workers),
